@@ -8,20 +8,27 @@
    (rebuild_cached_values ...) over the HIP estimator state (hip_accum, kxq0, kxq1, out-of-order).
    It models the REPAIRED code: /repo commits "fix: HllUnion reported estimate 0 after copying an
    out-of-order Hll4/Hll6 sketch" (D3) and "fix: HllUnion::to_sketch(Hll4/Hll6) dropped the
-   gadget's out-of-order flag and estimator state" (D2); known_findings.d/D3-*, D2-*.
+   gadget's out-of-order flag and estimator state" (D2); known_findings.d/D3-*, D2-*; and e763c00 (the copy of
+   an in-order Hll8 source kept a HIP accumulator although out of order; C11-hll-union-copy-hip-accum).
 
    An abstract input [ainput] = (lg_k, array-mode flag, coupon list).  [SrcOK lg_k arr cs s]: the
    source sketch s represents it -- in list/set mode its container holds exactly the coupons of cs
    (with the C02 invariants), in array mode (Hll4, Hll6 or Hll8) register j = spec_regs lg_k cs j;
-   ANY estimator state (in order or out of order), so freshly built, deserialized, foreign and
-   union-produced sketches are all covered.  [uop] = UMerge i s | UValue c | UReset.
+   ANY estimator state (in order or out of order).  SrcOK is PROVED for: sketches built by
+   HllSketch::new + updates (c03_stream_is_source), their out-of-order copies
+   (c03_estimator_state_irrelevant), results of HllUnion::to_sketch
+   (c03_to_sketch_type_independent) and sketches returned by HllSketch::deserialize for canonical
+   images, i.e. every image the crate / Java / C++ writes (c03_deserialized_is_source).  NOT covered:
+   accepted NON-canonical images (a set image with fewer than 8 coupons, an Hll4 image with no
+   register at cur_min) -- merged by the oracle only.  [uop] = UMerge i s | UValue c | UReset.
    Spec: [spec_run lg_max ops] = (harr, lg, cs) since the last reset: harr = some non-empty
    array-mode input was merged; lg = min (lg_max, lg_k of those inputs); cs = all coupons merged.
    [union_shows lg_max harr lg cs g]: gadget g (always Hll8) has lg_k = lg; it is in array mode iff
    harr or the number of distinct coupons passed the promotion threshold of lg_max, and then
    register j = max value over the coupons of cs folded to slot j mod 2^lg; otherwise lg = lg_max
    and its container holds exactly the distinct coupons of cs. *)
-From DS Require Import Base.Prelude Model.Hll Model.HllUnion Proofs.HllBase Proofs.HllRefine Proofs.HllUnionProofs Proofs.HllUnionAssoc.
+From DS Require Import Base.Prelude Model.Hll Model.HllUnion Model.HllCodec Proofs.HllBase Proofs.HllRefine Proofs.HllUnionProofs Proofs.HllUnionAssoc
+  Proofs.HllCodecProofs.
 Open Scope N_scope.
 
 (* ---- union_refines, with update_value and reset interleaved (union_interleave): for all lg_max
@@ -100,6 +107,13 @@ Theorem c03_stream_is_source :
   forall lgk t cs, 4 <= lgk <= 21 -> Forall valid cs ->
   exists s, run_stream hip_new hip_update hip_carry lgk t cs = Ok s /\ SrcOK lgk (tag_flag (sk_tag s)) cs s.
 Proof. exact stream_is_source. Qed.
+
+(* ---- what the reader returns for a canonical image (set: at least 8 coupons; Hll4: some register
+   at cur_min) is a well-formed input: foreign and deserialized sketches can be merged *)
+Theorem c03_deserialized_is_source :
+  forall bs s, BOK bs -> hll_deserialize bs = Ok s -> image_canonical s ->
+  exists cs, SrcOK (sk_lgk s) (tag_flag (sk_tag s)) cs s.
+Proof. exact hll_deserialize_src_ok. Qed.
 
 Theorem c03_estimator_state_irrelevant :
   forall f lgk arrf cs s, SrcOK lgk arrf cs s -> SrcOK lgk arrf cs (with_est f s).
